@@ -27,6 +27,12 @@ Proof.
   rewrite N.land_ones. reflexivity.
 Qed.
 
+Lemma w64_wrap64 x : w64 x = wrap64 x.
+Proof.
+  unfold w64, wrap64, two64. change 18446744073709551615%N with (N.ones 64).
+  rewrite N.land_ones. reflexivity.
+Qed.
+
 (* grow(): for every table length a Go int can hold the code's newLen is the double *)
 Definition pows : list N := map (fun p => N.pow 2 (N.of_nat p)) (seq 0 62).
 Lemma gen_grow_len_pow2_all : forallb (fun n => N.eqb (go_grow_len n) (2 * n)%N) pows = true.
